@@ -21,6 +21,8 @@ def run(ctx, sess):
     P = sess.prog('default')
     ctx.rule('C15.1', 'the first block of a signal is always stored: the definition of omit_data that reaches the store/omit branch is masked with data_head.offset != 0')
     ctx.rule('C15.7', 'the reported length does not depend on omission: a block is omitted only when it is full (omit_data is masked with entry_count >= data_length); the count of a partial block is stored only in the block itself')
+    ctx.rule('C15.10', 'only constant blocks are left out automatically: the byte every byte of the block is compared with is the first sample replicated over the byte, for every sub-byte width (traced: width 1, 4, 8 x first bytes whose samples differ) - a block whose bytes are equal but whose samples are not is stored')
+    ctx.rule('C15.11', 'samples of stored blocks are what was read: the core read buffer is consumed only after a checked read or a reconstruction of that very block on the same path (shared with C04.8)')
     ctx.rule('C15.9', 'summary entries do not depend on omission: in the level-1 and level-n reductions the chunk position handed in (0 for an omitted block) flows only into the index entry; it is not used in any condition or in any value of a summary entry')
     ctx.rule('C15.2', 'summaries do not depend on omission: from both arms of the omit branch every success path passes the level-1 summary, the timestamp advance and the count reset; the summary path never reads the file')
     ctx.rule('C15.3', 'marker agreement: the writer records index entry 0 for an omitted block and the reader treats offset 0 as omitted (reconstruction, no seek)')
@@ -30,6 +32,10 @@ def run(ctx, sess):
     f, br = first_block_stored(ctx, P, 'C15.1')
     full_block_only(ctx, P, 'C15.7')
     position_flow_rule(ctx, P)
+    const_reference_rule(ctx, P)
+    from .common import relay
+    from . import c04 as _src_c04
+    relay(ctx, sess, _src_c04.run, {'C04.8': 'C15.11'}, minimum=5)
     # ---- C15.2
     need = {
         'summary': lambda e2: e2.k == 'call' and e2.callee == 'jls_core_fsr_summary1',
@@ -282,3 +288,71 @@ def position_flow_rule(ctx, P):
                '%d uses: index entry and logging only' % uses if not bad else
                'the position (0 = omitted) influences %s: summaries of an omitted block differ from those of the same block when stored' % '; '.join(bad[:2]))
     ctx.floor('uses of the chunk position in the reductions', n, 2)
+
+
+
+def const_reference_rule(ctx, P):
+    from ..fd import trace_calls, Top
+    from ..ir import path_of
+    fn = P.fn('wr_data')
+    ctx.saw(fn, 1)
+    preds = [c for c in fn.calls() if c.callee in P.functions and P.functions[c.callee].file == fn.file and
+             len(c.args) == 3 and P.functions[c.callee].ret in ('u1', 'bool', '_Bool', 'u8', 'i32')]
+    preds = [c for c in preds if any(ev.k == 'ret' for ev in P.functions[c.callee].events()) and
+             any(b.cond is not None and any(m.get('op') == 'un' and m.get('o') == '*' for m in walk(b.cond)) for b in P.functions[c.callee].blocks.values())]
+    if len(preds) != 1:
+        raise AnalysisBroken('wr_data: constant-block predicate call not found (%d candidates)' % len(preds))
+    pred = preds[0]
+    width_fn = None
+    for c in fn.calls():
+        g = P.functions.get(c.callee)
+        if g is not None and g.file == fn.file and len(c.args) == 1 and any(c2.callee == 'jls_datatype_parse_size' for c2 in g.calls()):
+            width_fn = g.name
+    if width_fn is None:
+        raise AnalysisBroken('wr_data: sample width helper not found')
+    # bind the member reads the skeleton needs
+    keys = {}
+    for b in fn.blocks.values():
+        for e in [ev.e for ev in b.events if ev.e is not None] + ([b.cond] if b.cond is not None else []):
+            for m in walk(e):
+                if m.get('op') == 'member' and m.get('field') in ('entry_count', 'data_length', 'write_omit_data', 'shift_buffer'):
+                    p = path_of(m) or fn.path(m)
+                    if p is not None:
+                        keys[m['field']] = str(p)
+    derefs = set()
+    for ev in fn.events():
+        for m in walk(ev.e or {}):
+            if m.get('op') == 'un' and m.get('o') == '*' and any(q.get('op') == 'member' and q.get('field') == 'data' for q in walk(m)):
+                derefs.add('deref:' + show(strip_casts(m['k'][0])))
+    bad = []
+    n = 0
+    for width in (1, 4, 8):
+        for first in (0x21, 0x12, 0x0f, 0xf0, 0xa5, 0x01, 0x80, 0xff, 0x00):
+            env = {'self': 1}
+            env.update({keys.get('entry_count', 'x'): 64, keys.get('data_length', 'y'): 64, keys.get('write_omit_data', 'z'): 0, keys.get('shift_buffer', 'w'): 0})
+            for d in derefs:
+                env[d] = first
+            got = []
+            a2 = strip_casts(pred.args[2])
+
+            def on_event(ev, env_, sym, got=got):
+                if ev is pred and not got:
+                    got.append(env_.get(a2.get('name')) if a2.get('op') == 'ref' else None)
+            try:
+                trace_calls(P, fn, env, assume_calls={None: 0, width_fn: width}, partial=True, max_steps=3000,
+                            no_inline=(width_fn, pred.callee), on_event=on_event)
+            except Top:
+                pass          # the skeleton after the predicate depends on its result
+            if not got:
+                bad.append('width %d, first byte 0x%02x: the predicate is not reached or its reference is not a local' % (width, first))
+                continue
+            n += 1
+            sample = first & ((1 << width) - 1)
+            want = sum(sample << (k * width) for k in range(8 // width))
+            if got[0] != want:
+                bad.append('width %d, first byte 0x%02x: bytes are compared with 0x%s, the first sample replicated is 0x%02x' %
+                           (width, first, ('%02x' % got[0]) if isinstance(got[0], int) else got[0], want))
+    ctx.ob('C15.10', not bad, fn.name, 'reference byte of the constant-block test', pred.where(),
+           'first sample replicated over the byte for widths 1, 4, 8 (%d traces)' % n if not bad else
+           '; '.join(bad[:2]) + ': a block of equal bytes whose samples differ (e.g. 4-bit samples alternating 1, 2) is taken for constant, left out, and read back as the replicated first sample')
+    ctx.floor('reference byte traces', n, 20)
